@@ -2,6 +2,7 @@
   C15 — Deadlock detection is sound and leaves no residue.
 -/
 import Rsactor.Inv.NetInv
+import Rsactor.Ties.feature_sites_shape
 import Rsactor.Ties.ask_protocol_shape
 
 namespace Rsactor.Props.C15
@@ -137,6 +138,7 @@ theorem stale_edge_scenario_is_fine :
   refine ⟨_, rfl, ?_, ?_⟩ <;> decide
 
 /-! ### ties to the source -/
+-- @tie Rsactor.Ties.feature_sites_shape
 -- @tie Rsactor.Ties.ask_protocol_shape
 
 end Rsactor.Props.C15
